@@ -547,26 +547,29 @@ class RefinedChains(object):
             for dv in (0, 1):
                 for own in (0, 1):
                     yield {'v': block['v'], 'kinds': block['kinds'], 'perm': list(perm), 'dv': dv, 'own': own}
+            # the same with names whose alphabetical order is the reverse of the derivation order
+            yield {'v': block['v'], 'kinds': block['kinds'], 'perm': list(perm), 'dv': 1, 'own': 1, 'zeta': 1}
 
     def run_case(self, case):
         base, r0, r1, r2, dv = self.VARIANTS[case['v']]
+        BASE, MID = ('ZetaBase', 'AlphaMid') if case.get('zeta') else ('BaseType', 'MidType')
         syn_base = base + (r0,)
-        syn_mid = ('ref', 'BaseType', r1)
-        syn_obj = ('ref', 'MidType', r2) if case['own'] else ('ref', 'MidType')
+        syn_mid = ('ref', BASE, r1)
+        syn_obj = ('ref', MID, r2) if case['own'] else ('ref', MID)
 
         def td(name, kind, syn):
             if kind == 'C':
                 return {'k': 'tc', 'name': name, 'display': None, 'status': 'current', 'descr': 'd', 'syntax': syn}
             return {'k': 'type', 'name': name, 'syntax': syn}
-        items = [obj('dvObj', syn_obj, 1, defval=dv if case['dv'] else None), td('MidType', case['kinds'][1], syn_mid),
-                 td('BaseType', case['kinds'][0], syn_base), obj('otherObj', ('ref', 'MidType'), 2)]
+        items = [obj('dvObj', syn_obj, 1, defval=dv if case['dv'] else None), td(MID, case['kinds'][1], syn_mid),
+                 td(BASE, case['kinds'][0], syn_base), obj('otherObj', ('ref', MID), 2)]
         decls = ctx() + [items[i] for i in case['perm']]
         mod = refir.finish_module({'name': 'TEST-MIB', 'decls': decls})
         texts, out = compile_both([mod], ['TEST-MIB'])
         first = ['obj', 'mid', 'base', 'other'][case['perm'][0]]
         sig = 'C05|refined-chain|%s|%s|%s-first%s' % (case['v'], case['kinds'], first, '|defval' if case['dv'] else '')
         vs = []
-        want_syn = {'MidType': syn_mid, 'BaseType': syn_base}
+        want_syn = {MID: syn_mid, BASE: syn_base}
         res, written = out['json']
         src = texts['TEST-MIB']
         if res.get('TEST-MIB') != 'compiled':
@@ -576,7 +579,7 @@ class RefinedChains(object):
         for sym, syn in sorted(want_syn.items()):
             for b in json_syntax_ok(doc.get(sym, {}).get('type') or {}, syn):
                 vs.append(('%s|json|%s|%s' % (sig, sym, b.split(' ')[0]), '%s: %s\n%s' % (sym, b, src)))
-        for sym, syn in (('dvObj', syn_obj), ('otherObj', ('ref', 'MidType'))):
+        for sym, syn in (('dvObj', syn_obj), ('otherObj', ('ref', MID))):
             for b in json_syntax_ok(doc.get(sym, {}).get('syntax') or {}, syn):
                 vs.append(('%s|json|%s|%s' % (sig, sym, b.split(' ')[0]), '%s: %s\n%s' % (sym, b, src)))
         uni = refir.Universe([mod])
@@ -602,8 +605,8 @@ class RefinedChains(object):
             if not isinstance(cls, type) or not issubclass(cls, pysnmp_rec.Asn1Type):
                 vs.append(('%s|pysnmp|%s|no-class' % (sig, sym), '%r\n%s' % (cls, src)))
                 continue
-            inh = pysnmp_rec.constraints_of(ns['BaseType']) if sym == 'MidType' and isinstance(ns.get('BaseType'), type) else None
-            for bad in pysnmp_syntax_ok(cls, syn, parent_name=None if sym == 'BaseType' else 'BaseType', inherited=inh):
+            inh = pysnmp_rec.constraints_of(ns[BASE]) if sym == MID and isinstance(ns.get(BASE), type) else None
+            for bad in pysnmp_syntax_ok(cls, syn, parent_name=None if sym == BASE else BASE, inherited=inh):
                 vs.append(('%s|pysnmp|%s|%s' % (sig, sym, bad.split(' ')[0]), '%s: %s\n%s' % (sym, bad, src)))
         return 'ok', vs, 2
 
